@@ -188,7 +188,7 @@ static int batch (const struct nsim_family *fam, uint64_t base, int64_t nruns, i
 		if (p == 0) {
 			int ec = worker (fam, base, first[w], nruns, workers, deadline, outdir, w);
 			fflush (NULL);
-			if (__gcov_dump) __gcov_dump ();     /* coverage builds only (bin/build.py --cov) */
+			if (__gcov_dump) { rt_cov_accumulate (); rt_cov_restore (); __gcov_dump (); }     /* coverage builds only (bin/build.py --cov) */
 			_exit (ec);
 		}
 		pids[w] = p;
